@@ -283,6 +283,7 @@ def thread_family(r, kind, tier):
         pairs = [(x, y) for x in reqs for y in reqs if x < y]
         _AUDIT["log"] = []
         SV.wsgi_thread_pairs(r, kind, app, reqs, pairs, files, bound=1 if tier == "quick" else 2)
+        SV.asgi_task_pairs(r, kind, sb.apps("absolute")[("asgi", kind)], reqs, pairs, bound=2)
         if _AUDIT["log"]:
             r.violation("opened-outside-directory", {"threads": kind}, f"two-thread runs of wsgi {kind} opened <sandbox>/{os.path.relpath(_AUDIT['log'][0], _AUDIT['sandbox'])}")
         r.sample({"threads": kind, "requests": list(reqs)})
